@@ -84,6 +84,15 @@ def check(ctx):
     # value checks run on the *trimmed* text: the trim contract (only ASCII whitespace is removed, and all of it at both ends)
     # is what keeps a defective value from slipping through; same unit as in C02
     from contracts import trim
+    # the funnel itself under Verus contracts (same unit as in C02: lexer + ArxmlParser::{new,next,error,optional_error,check_version})
+    import copy
+    from contracts import lexer, parser_funnel
+    try:
+        lexer.check_decls(ctx.scratch.dir)
+        parser_funnel.check_decls(ctx.scratch.dir)
+        ctx.verus_unit(parser_funnel.extend(copy.copy(lexer.UNIT), ctx.scratch.dir), finder=None)
+    except Lost as e:
+        ctx.undecided.append('lexer+funnel reason=lost anchor: %s' % e)
     ctx.verus_unit(trim.UNIT, finder=dict(module='parser', check='trim', alphabet=b' \nA<\x0b', maxlen=5))
     specs += [dict(name='trim_len%d' % n, module='parser', kind='bounded', bound='input length == %d, all byte values' % n, timeout=120, covers_optional=(n < 2),
                    desc='unmodified trim_byte_string against the executable contract: result is the input minus leading/trailing ASCII whitespace, nothing else removed') for n in range(0, 5)]
